@@ -15,9 +15,13 @@ if i<n:
     k=kinds[i%len(kinds)]
     p={"kind":k,"steps":steps+10*(i%4),"stakes":i//len(kinds),"chains":1+(i//3)%2}
     if k in("mix","alias"): p["chains"]=2
-else:
+elif i<n+n//len(kinds):
     k="span"
     p={"kind":k,"steps":steps+10*(i%4),"stakes":i-n,"chains":2}
+else:
+    k="degen"
+    j=i-n-n//len(kinds)
+    p={"kind":k,"steps":steps//2+5*(i%4),"stakes":j,"chains":1+j%2}
 case={"name":"%s-%03d"%(k,i),"seed":seed*1000003+i*7919,"params":p}
 print(json.dumps({"property":"C06","tier":tier,"violation":{"signature":"-","message":"","case":case}}))
 PY
